@@ -9,8 +9,8 @@
 (*              that lead back to the state).  A state is reached in the implementation by                *)
 (*              Fix(InitTable, state) and re-entered by Fix(next, state); both are checked here (FixInv,   *)
 (*              LeafInv) and observed there.                                                              *)
-(* Mode "walk": random histories of Depth calls (TLC -simulate) from the initial table, two effective     *)
-(*              calls followed by an arbitrary one.                                                       *)
+(* Mode "walk": random histories of Depth calls (TLC -simulate) from the initial table, two calls free of  *)
+(*              argument errors followed by an arbitrary one.                                             *)
 (* Observations in a table: the operators of the universe names (current_op/3 with all arguments unbound),*)
 (* current_op/3 in the other 7 instantiation patterns instantiated from operators of the table, and the   *)
 (* probe sentences read under the table.                                                                  *)
@@ -84,12 +84,14 @@ Grow == /\ phase = "grow"
 Leaf == /\ phase = "grow" /\ phase' = "leaf"
         /\ act' \in LeafActs
         /\ UNCHANGED <<tb, hist>>
+(* a walk step: TLC's RandomElement picks ONE call (otherwise -simulate would build, and evaluate Emit on, every       *)
+(* successor); two calls without table-independent errors are followed by an arbitrary one                        *)
+LikelyActs == {a \in LeafActs : StaticErrs(a.P, a.S, a.N) = {}}
 Walk == /\ phase = "walk" /\ Len(hist) < Depth
-        /\ \E a \in LeafActs :
-              /\ ((Len(hist) % 3) # 2 => Effective(tb, a))
-              /\ tb' \in Res(tb, a).alts
-              /\ hist' = Append(hist, [a |-> a, from |-> tb, to |-> tb'])
-        /\ UNCHANGED <<phase, act>>
+        /\ act' = RandomElement(IF (Len(hist) % 3) # 2 THEN LikelyActs ELSE LeafActs)
+        /\ tb' \in Res(tb, act').alts
+        /\ hist' = Append(hist, [a |-> act', from |-> tb, to |-> tb'])
+        /\ UNCHANGED phase
 Next == Grow \/ Leaf \/ Walk
 
 -----------------------------------------------------------------------------
@@ -129,7 +131,7 @@ StateVec(t) ==
 
 (* one call a in table t.  ts: the next tables to describe (all admissible ones, or the one a walk chose).        *)
 (* Patterns are instantiated from the operators that the mentioned names have before or after the call; tables  *)
-(* equal to t are not described again (same = TRUE: the observations of the state apply).                        *)
+(* are not described when t is the only next table (the observations of the state apply).                       *)
 StepVec(t, a, ts) ==
   LET r  == Res(t, a)
       ns == AtomNames(a.N)
@@ -143,8 +145,8 @@ StepVec(t, a, ts) ==
       qs |-> IF ts = {t} THEN <<>> ELSE qs,
       probes |-> IF ts = {t} THEN <<>> ELSE ProbeToks(ps),
       alts |-> [j \in 1..Len(al) |->
-                  IF al[j] = t THEN [same |-> TRUE, undo |-> <<>>, obs |-> Obs(t, <<>>, <<>>)]
-                  ELSE [same |-> FALSE, undo |-> Fix(al[j], t), obs |-> Obs(al[j], qs, ps)]]]
+                  IF ts = {t} THEN [same |-> TRUE, undo |-> <<>>, obs |-> Obs(t, <<>>, <<>>)]
+                  ELSE [same |-> (al[j] = t), undo |-> Fix(al[j], t), obs |-> Obs(al[j], qs, ps)]]]
 
 Emit ==
   /\ (phase = "grow") => PrintT(ToJson(StateVec(tb)))
